@@ -4,4 +4,4 @@ From Coq Require Import NArith List Extraction ExtrOcamlBasic.
 From C06 Require Import Model_C06.
 Extraction Language OCaml.
 
-Extraction "../ocaml/C06/_build/c06_model.ml" run init first_irregular first_bad_store observable N.add N.of_nat.
+Extraction "../ocaml/C06/_build/c06_model.ml" run xrun init first_irregular first_bad_store first_this_data observable N.add N.of_nat.
